@@ -196,6 +196,12 @@ Section Score.
     (forall r c, r < length (sq_mat q) -> c < C ->
        nth c (nth r (sq_mat q) []) N = nth (c * seq_R (length s) + r) s N).
 
+  (* the striped matrix of s with w look-ahead rows, by the closed form (what
+     Stripe::stripe followed by configure_wrap builds: property C04) *)
+  Definition stripe_of (s : list nat) (w : nat) : sseq :=
+    let R := seq_R (length s) in
+    mkSeq (length s) w (map (fun r => map (fun c => nth (c * R + r) s N) (seq 0 C)) (seq 0 (R + w))).
+
   (* executable version of [Striped] (used by the driver on the matrix the library built) *)
   Definition striped_b (s : list nat) (q : sseq) : bool :=
     let R := seq_R (length s) in
